@@ -716,7 +716,7 @@ def scn_far(tier):
 def scn_many_sheets(rng, tier):
     out = []
     counts = [1, 2, 3, 4, 5, 6, 12, 40] if tier != 'thorough' else [1, 2, 3, 4, 5, 6, 7, 11, 12, 13, 40, 101]
-    reps = 3 if tier != 'thorough' else 10
+    reps = 3 if tier != 'thorough' else 6
     for n in counts:
         for rep in range(reps):
             for shape in ('free', 'shrinking', 'growing', 'empties'):
@@ -972,7 +972,7 @@ def scn_overrides(rng, tier):
 
 def scn_random(rng, tier):
     out = []
-    nb = 60 if tier != 'thorough' else 2500
+    nb = 60 if tier != 'thorough' else 1500
     for b in range(nb):
         safe = b % 5 != 0
         out.append({'group': 'random_layouts', 'books': [{'spec': gen_book(rng, None, safe), 'safety': safe}], 'seed': b})
@@ -1135,7 +1135,7 @@ def run(tier='quick', seed=0):
                 continue
             seen.add(k)
             scn, what = scns[idx], w
-            if len(seen) <= 12:
+            if len(seen) <= 12 and not scn.get('rootkey'):
                 small, w2 = shrink(scn, k, budget=8.0)
                 if w2 is not None:
                     scn, what = small, w2
